@@ -59,7 +59,10 @@ def plan(tier, seed):
 
 def _attrs_fn(script):
     def f(idx):
-        return [("name", "b%d" % idx), ("check-lua", script), ("check-lua-pattern", "[\\s\\S]*")]
+        a = [("name", "b%d" % idx), ("check-lua", script), ("check-lua-pattern", "[\\s\\S]*")]
+        if idx % 3 == 1:
+            a.append(("data-call", "f\\(x\\)"))     # backslash-escaped parentheses: the only way to write them in a Markdown (...) title
+        return a
     return f
 
 
